@@ -22,7 +22,7 @@ namespace Xgi.Heap
 structure Cell (π : Type) where
   refs : List Nat
   payload : π
-  deriving Repr
+  deriving DecidableEq, Repr
 
 /-- address ↦ container (`none` = nothing allocated there) -/
 abbrev Heap (π : Type) := Nat → Option (Cell π)
